@@ -103,4 +103,37 @@ def suiteBP : Suite where
     let rs := ops.map fun (op, obs) => stepBP op obs
     (rs.map fun (o, v, _) => (o, v), (rs.flatMap fun (_, _, t) => t).eraseDups)
 
+/-! Suite `verifier`: op `verify pieces=<len>:<kind>,…` (g good, c/h/s hash mismatch, e read error);
+obs `bits=<0/1…> err=<0|1>`. -/
+def stepVF (op implObs : String) : String × List String × List String :=
+  let toks := words op
+  let itoks := words implObs
+  let kinds : List (Nat × String) := (commaList (kvStr toks "pieces")).filterMap fun t =>
+    match t.splitOn ":" with
+    | [l, k] => some (parseNat! l, k)
+    | _ => none
+  if kinds.isEmpty then ("nopieces", [], []) else
+  -- piece i: hash i+1; H maps the bytes read for a good piece to its hash, anything else to 0.
+  -- the bytes "read" for piece i are represented by [i, verdict] padded to the piece length
+  let items : List (Piece Nat × Option Bytes) := (List.range kinds.length).zip kinds |>.map fun (i, (l, k)) =>
+    let p : Piece Nat := { length := l, secs := [], hash := i + 1 }
+    let data : Bytes := (List.replicate l (if k = "g" then i + 1 else 0))
+    (p, if k = "e" then none else some data)
+  let H : Bytes → Nat := fun b => b.headD 0
+  let (bits, e) := verifyAll H items
+  let showBits (bs : List Bool) := String.join (bs.map boolStr)
+  let model := s!"bits={showBits bits} err={boolStr e}"
+  let ibits := (kvStr itoks "bits").toList.map (· == '1')
+  let viol := ((List.range kinds.length).zip (kinds.zip ibits)).filterMap fun (i, ((_, k), b)) =>
+    if b ∧ k ≠ "g" then some s!"C01 verifier-bit-without-hash-match piece={i} kind={k}" else none
+  let tags := (if kinds.any (·.2 = "g") ∧ kinds.any (fun k => k.2 ≠ "g") then ["nontrivial"] else []) ++
+    (if e then ["branch:read-error"] else [])
+  (model, viol, tags)
+
+def suiteVF : Suite where
+  name := "verifier"
+  runCase ops :=
+    let rs := ops.map fun (op, obs) => stepVF op obs
+    (rs.map fun (o, v, _) => (o, v), (rs.flatMap fun (_, _, t) => t).eraseDups)
+
 end Driver.Suites.PW
